@@ -1,3 +1,125 @@
 package main
 
-func planarGrid(c *Ctx, add func(name string, g gJ, vars []invVar, known string)) []invIn { return nil }
+// C11: IsPlanar.
+//  - graphs whose planarity is known by construction: behaviours of PlanarGen.tla (TLC exhaustive dump
+//    to a small depth and long simulated behaviours), rebuilt with the real EditableGraph operations;
+//  - every isomorphism class up to n = 6 (7, 8 thorough) under all / seeded relabellings, judged by
+//    the exact oracle of GraphTheory.tla.
+
+import (
+	"encoding/json"
+	"fmt"
+	"math/rand"
+
+	"github.com/Tom-Johnston/mamba/graph"
+
+	"verifharness/internal/obs"
+)
+
+type pgOp struct {
+	Op string `json:"op"`
+	A  int    `json:"a"`
+	B  int    `json:"b"`
+	S  []int  `json:"S"`
+}
+type pgBeh struct {
+	Kind string `json:"kind"`
+	N    int    `json:"n"`
+	E    []int  `json:"e"`
+	Hist []pgOp `json:"hist"`
+}
+
+// rebuild executes the operations of a PlanarGen behaviour on a real editable graph.
+func rebuild(rep string, hist []pgOp) graph.EditableGraph {
+	var g graph.EditableGraph
+	for _, o := range hist {
+		switch o.Op {
+		case "k4":
+			g = graphOfJ(rep, gJOf(graph.CompleteGraph(4)))
+		case "k5":
+			g = graphOfJ(rep, gJOf(graph.CompleteGraph(5)))
+		case "k33":
+			g = graphOfJ(rep, gJOf(graph.CompletePartiteGraph(3, 3)))
+		case "addvertex":
+			g.AddVertex(cp(o.S))
+		case "removeedge":
+			g.RemoveEdge(o.A, o.B)
+		case "addedge":
+			g.AddEdge(o.A, o.B)
+		case "splitedge":
+			graph.SplitEdge(g, o.A, o.B)
+		default:
+			panic("unknown generator operation " + o.Op)
+		}
+	}
+	return g
+}
+
+func planarGrid(c *Ctx, add func(name string, g gJ, vars []invVar, known string)) []invIn {
+	big := c.Thorough()
+	r := rand.New(rand.NewSource(c.Seed))
+	var out []invIn
+	collect := func(name string, g gJ, vars []invVar, known string) {
+		out = append(out, invIn{Prop: "C11", Name: name, G: g, Vars: vars, Known: known, Seed: c.Seed})
+	}
+	// exact oracle: every class, all relabellings up to n = 6
+	for n := 0; n <= 6; n++ {
+		for _, gj := range classReps(n) {
+			vars := []invVar{}
+			for i, pi := range permsOf(n) {
+				vars = append(vars, invVar{Pi: pi, Rep: []string{"dense", "sparse"}[i%2]})
+			}
+			vars = append(vars, invVar{Pi: identity(n), Rep: "view"})
+			collect(fmt.Sprintf("class%d", n), gj, vars, "")
+		}
+	}
+	n7 := 120
+	if big {
+		n7 = 1044
+	}
+	c7 := classReps(7)
+	for i := 0; i < n7; i++ {
+		gj := c7[i%len(c7)]
+		if !big {
+			gj = c7[r.Intn(len(c7))]
+		}
+		collect("class7", gj, stdVariants(r, 7, 8), "")
+	}
+	if big {
+		c8 := classReps(8)
+		for i := 0; i < 1500; i++ {
+			collect("class8", c8[r.Intn(len(c8))], stdVariants(r, 8, 4), "")
+		}
+	}
+	// by construction: the behaviours TLC generated from PlanarGen.tla
+	if c.Gen != "" {
+		seen := map[string]bool{}
+		readGenLines(c.Gen, "B", func(js string) {
+			var b pgBeh
+			if err := json.Unmarshal([]byte(js), &b); err != nil {
+				panic(err)
+			}
+			k := fmt.Sprint(b.Kind, b.N, b.E)
+			if seen[k] {
+				return
+			}
+			seen[k] = true
+			name := "gen-" + b.Kind
+			// the graph is rebuilt with the real operations; if that does not give the specification's graph the event says so
+			for _, rep := range []string{"dense", "sparse"} {
+				var got gJ
+				res := obs.Safe(func() { got = gJOf(rebuild(rep, b.Hist)) })
+				if res != "ok" || got.N != b.N || !eqS(got.E, b.E) {
+					collect(name+"-REBUILD-MISMATCH-"+rep, gJ{N: b.N, E: b.E}, []invVar{{Pi: []int{}, Rep: rep}}, b.Kind)
+					return
+				}
+			}
+			vars := []invVar{{Pi: identity(b.N), Rep: "dense"}, {Pi: identity(b.N), Rep: "sparse"}, {Pi: identity(b.N), Rep: "view"}}
+			for i := 0; i < 4; i++ {
+				vars = append(vars, invVar{Pi: r.Perm(b.N), Rep: []string{"dense", "sparse"}[i%2]})
+			}
+			collect(name, gJ{N: b.N, E: b.E}, vars, b.Kind)
+		})
+	}
+	return out
+}
